@@ -231,6 +231,12 @@ Stem(t, relay) ==
 \* entry creates that output too), and it is not the spender that keeps two creators of the same output apart
 Evictable(tp) == {x \in SeqToSet(tp) : JointOK(AtomsIn(Remove(tp, x)), U)}
 
+\* The FORM in which the inputs of a submission are written - commitments only, or commitments with DECLARED output
+\* features, truthful or not (coinbase labelled plain, plain labelled coinbase) - is deliberately not a parameter:
+\* the declared features are covered by no signature, add_to_pool looks the spent outputs up (locate_spends) and
+\* decides maturity from what the chain / the pool says they are, and the admitted entry carries the looked-up
+\* features (convert_tx_v2). The behaviour generator (MC_Pool) attaches a form to every submission and the replay
+\* demands the same verdict and the same pools whatever the form.
 Submit(t, stem, relay) ==
   LET r == IF stem THEN Stem(t, relay) ELSE Fluff(t)
   IN /\ nsteps < MaxSteps
